@@ -51,6 +51,23 @@ fn main() {
         }
         i += 1;
     }
+    if id == "selftest" {
+        // oracle validation of the structured generator against html5ever
+        let n: u64 = 200_000;
+        let mut rng = vharness::rng::Rng::new(seed);
+        let mut bad = 0;
+        for i in 0..n {
+            let o = vharness::structgen::Opts { truncate: false, esi: false, ..Default::default() };
+            let d = vharness::structgen::gen_doc(&mut rng, &o);
+            if let Err(e) = vharness::truth::validate(&d) {
+                println!("MISMATCH at {i}: {e}");
+                bad += 1;
+                if bad > 5 { break; }
+            }
+        }
+        println!("selftest: {n} docs, {bad} mismatches");
+        std::process::exit(if bad > 0 { 2 } else { 0 });
+    }
     vharness::engine::install_quiet_panic_hook();
     let props = vharness::props::all();
     let Some(p) = props.iter().find(|p| p.id() == id) else {
